@@ -38,13 +38,20 @@ def main():
     if not a.inplace:
         # default: a scratch copy of /repo's working tree (background sweeps may be using /repo itself)
         copy = os.path.join(tmp, 'repo')
-        subprocess.run(['rsync', '-a', '--exclude', '__pycache__', '/repo/', copy + '/'], check=True)
+        # the committed tree only (git archive): no .git directory to copy, nothing another process can change under it
+        os.makedirs(copy)
+        ar = subprocess.run('git -C /repo archive HEAD | tar -x -C %s' % copy, shell=True)
+        if ar.returncode != 0:
+            print('could not export /repo HEAD')
+            shutil.rmtree(tmp, ignore_errors=True)
+            return 2
         REPO = copy
-    st = sh(['git', '-C', REPO, 'status', '--porcelain'])
-    if st.stdout.strip():
-        print('refusing: working tree is not clean:\n' + st.stdout)
-        return 2
-    r = sh(['git', '-C', REPO, 'apply', os.path.abspath(a.patch)])
+    if a.inplace:
+        st = sh(['git', '-C', REPO, 'status', '--porcelain'])
+        if st.stdout.strip():
+            print('refusing: working tree is not clean:\n' + st.stdout)
+            return 2
+    r = sh(['git', 'apply', os.path.abspath(a.patch)], cwd=REPO)
     if r.returncode != 0:
         print('patch does not apply:', r.stderr)
         shutil.rmtree(tmp, ignore_errors=True)
